@@ -246,6 +246,8 @@ def run(chk, fb, tier):
     from props import C01
 
     C01.rule_number_exact(chk, fb, "C20.f")
+    C01.rule_guess_whole(chk, fb, "C20.f.guess")
+    C01.rule_rich_text_set(chk, fb, "C20.f.rich")
     import symmetry
 
     symmetry.rule_parsed_as_stored(chk, fb, "C20.g", only_types=("WorkbookView",), floor=1)
